@@ -172,4 +172,82 @@ def multiSign (keyType : Bytes) (supported : List Bytes) (algorithm : Bytes) : O
   | none => none
   | some _ => some a
 
+/-! ## constructors: NewPublicKey, NewSignerFromKey / NewSignerFromSigner, NewCertSigner -/
+
+/-- what is handed to `NewPublicKey` / `NewSignerFromKey` (the Go dynamic type and the public part) -/
+inductive GoKey where
+  | rsa (e n : Int)                       -- *rsa.PublicKey / *rsa.PrivateKey
+  | ecdsa (bits : Nat) (pt : Bytes)       -- *ecdsa.…: bits = curve size (224 = an unsupported curve)
+  | dsa (p q g y : Int)                   -- *dsa.PublicKey / *dsa.PrivateKey
+  | ed25519 (k : Bytes)                   -- ed25519.PublicKey / ed25519.PrivateKey (value or pointer for private keys)
+  | other                                 -- any other dynamic type (values instead of pointers, strings, …)
+
+/-- `NewPublicKey(key)`: no validation beyond the curve and the Ed25519 length -/
+def newPublicKey : GoKey → Option PubKey
+  | .rsa e n => some (.rsa e n)
+  | .ecdsa bits pt => if bits = 256 ∨ bits = 384 ∨ bits = 521 then some (.ecdsa bits pt) else none
+  | .dsa p q g y => some (.dsa p q g y)
+  | .ed25519 k => if k.length = 32 then some (.ed25519 k) else none
+  | .other => none
+
+/-- `checkDSAParams` -/
+def checkDSAParams (p q g : Int) : Bool :=
+  bitLen p = 1024 && bitLen q = 160 && decide (g < p) && decide (0 < g)
+
+/-- `NewSignerFromKey(key)`: crypto.Signer values go through NewSignerFromSigner → NewPublicKey;
+    *dsa.PrivateKey through checkDSAParams; everything else is refused -/
+def newSignerFromKey : GoKey → Option PubKey
+  | .dsa p q g y => if checkDSAParams p q g then some (.dsa p q g y) else none
+  | k => newPublicKey k
+
+/-- a Signer as the package builds them -/
+inductive SignerM where
+  | wrapped (keyType : Bytes)                                  -- wrappedSigner / dsaPrivateKey
+  | multi (inner : SignerM) (algs : List Bytes)                 -- NewSignerWithAlgorithms
+  | hidden (inner : SignerM) (alg : Bool)                       -- the caller only sees Signer (alg=false) or AlgorithmSigner (alg=true)
+  | cert (certType : Bytes) (inner : SignerM)                   -- NewCertSigner
+
+/-- which interfaces a signer value implements: (AlgorithmSigner, MultiAlgorithmSigner) -/
+def SignerM.caps : SignerM → Bool × Bool
+  | .wrapped _ => (true, true)
+  | .multi _ _ => (true, true)
+  | .hidden _ alg => (alg, false)
+  | .cert _ inner => inner.caps           -- NewCertSigner picks its wrapper by the signer's interfaces
+
+def SignerM.pubType : SignerM → Bytes
+  | .wrapped kt => kt
+  | .multi inner _ => inner.pubType
+  | .hidden inner _ => inner.pubType
+  | .cert ct _ => ct
+
+/-- `Algorithms()` (only meaningful when the value is a MultiAlgorithmSigner) -/
+def SignerM.algorithms : SignerM → List Bytes
+  | .wrapped kt => algorithmsForKeyFormat kt
+  | .multi _ algs => algs
+  | .hidden inner _ => inner.algorithms
+  | .cert _ inner => inner.algorithms
+
+/-- `SignWithAlgorithm(rand, data, alg)`: the signature format, or none = refused -/
+def SignerM.signWith : SignerM → Bytes → Option Bytes
+  | .wrapped kt, alg =>
+    let a := if alg.isEmpty then kt else alg
+    if !(algorithmsForKeyFormat kt).contains a then none else
+    match hashFunc a with
+    | none => none
+    | some _ => some a
+  | .multi inner algs, alg =>
+    if isAlgorithmSupported inner.pubType algs alg then inner.signWith alg else none
+  | .hidden inner _, alg => inner.signWith alg
+  | .cert ct inner, alg =>
+    -- a MultiAlgorithmSigner is re-wrapped in a multiAlgorithmSigner whose PublicKey() is the certificate
+    if inner.caps.2 then (if isAlgorithmSupported ct inner.algorithms alg then inner.signWith alg else none)
+    else inner.signWith alg
+
+/-- `Sign(rand, data)`: NOT restricted by NewSignerWithAlgorithms (the embedded signer's Sign is used) -/
+def SignerM.sign : SignerM → Option Bytes
+  | .wrapped kt => SignerM.signWith (.wrapped kt) kt
+  | .multi inner _ => inner.sign
+  | .hidden inner _ => inner.sign
+  | .cert _ inner => inner.sign
+
 end XC.C40
